@@ -2,7 +2,7 @@
    kind = property*100 + sub-model.  [run] = what the model says the implementation must
    output on this input; [mon] = the property's monitor applied to the implementation's own
    observed output. *)
-From RainV Require Import Lib Tier Geometry SectionIO Meta Paths Wire Stree AddrList Cache Tracker Announcer Picker Ram InfoDl Magnet Admission PieceDl Leech MetaSess Life Registry Resume Priv Mse.
+From RainV Require Import Lib Tier Geometry SectionIO Meta Paths Wire Stree AddrList Cache Tracker Announcer Picker Ram InfoDl Magnet Admission PieceDl Leech MetaSess Life Registry Resume Priv Mse Owner.
 
 Definition run (kind : Z) (inp : list Z) : list Z :=
   match kind with
@@ -46,6 +46,8 @@ Definition run (kind : Z) (inp : list Z) : list Z :=
   | 1204 => run_enc_policy inp
   | 1701 => run_ram inp
   | 1901 => run_priv_flag inp
+  | 2001 => run_owner inp
+  | 2002 => run_api_stress inp
   | 1902 => run_priv true inp
   | 1801 => run_blocklist inp
   | 1802 => run_stree inp
@@ -97,6 +99,8 @@ Definition mon (kind : Z) (inp obs : list Z) : bool :=
   | 1802 => mon_stree inp obs
   | 1803 => mon_addrlist inp obs
   | 1901 => list_eqb_Z (run_priv_flag inp) obs
+  | 2001 => mon_owner inp
+  | 2002 => list_eqb_Z (run_api_stress inp) obs
   | 1902 => list_eqb_Z (run_priv true inp) obs
   | _ => false
   end.
